@@ -125,6 +125,8 @@ class Gen:
         ac = 0
         if k == 'fd' and r.random() < 0.25 and self.fresh_fd < 16:
             key = self.fresh_fd; self.fresh_fd += 1; ac = 1
+            if r.random() < 0.4:                       # M_SRC_DUP (8 + priority): the library polls and later closes its own duplicate
+                p = r.choice([8, 8, 11, 10]); ac = r.choice([0, 1])
         one = 1 if (r.random() < 0.25 or (k == 'pid' and r.random() < 0.9)) else 0       # a dead process keeps its descriptor readable: mostly one-shot
         return 'srcreg %d %s %d %d %d %d %d' % (m, k, key, p, one, ac, r.randint(1, 99))
     def env(self):
@@ -236,7 +238,10 @@ def gen_sources_case(rng, P):
             key = {'fd': g.fd_of(m), 'tmr': rng.choice(TMR_KEYS), 'sgn': rng.choice(SIGS), 'task': rng.randint(1, 3), 'path': rng.randint(1, 4), 'pid': rng.randint(1, 3)}[k]
             if k == 'sgn' and g.sig_owner.setdefault(key, m) != m: continue
             one = 1 if (rng.random() < 0.3 or (k == 'pid' and rng.random() < 0.9)) else 0
-            prog.append('srcreg %d %s %d %d %d 0 %d' % (m, k, key, rng.choice([0, 0, 3]) if k == 'fd' else rng.choice([0, 1, 2, 3]), one, rng.randint(1, 99)))
+            prio = rng.choice([0, 0, 3]) if k == 'fd' else rng.choice([0, 1, 2, 3])
+            if k == 'fd' and rng.random() < 0.3 and g.fresh_fd < 16:      # a descriptor of its own, duplicated by the library (M_SRC_DUP = 8 + priority)
+                key = g.fresh_fd; g.fresh_fd += 1; prio = rng.choice([8, 11])
+            prog.append('srcreg %d %s %d %d %d 0 %d' % (m, k, key, prio, one, rng.randint(1, 99)))
             regs.append((m, k, key))
     handler_procs = []
     for m in range(g.nm):
